@@ -5,6 +5,8 @@ from .gostate import *
 from .gospec import SpecEnv
 from .goexec import PanicEx, ReturnEx, PathEnd, simp_bool, BreakEx, ContinueEx
 
+unbox_int = z3.Function('unbox_int', I, I)
+
 LOGGING = ('github.com/sirupsen/logrus.', 'log.Print', 'log.Printf', 'log.Println')
 
 class CallsMixin:
@@ -30,9 +32,39 @@ class CallsMixin:
                 except Unsupported: pass
             return TupleV([])
         argv = [self.ev(st, a) for a in args]
-        if e.get('Ellipsis') and argv:
-            pass
+        argv = self.coerce_args(st, f, args, argv, e)
         return self.call_key(st, key, recv, argv, e)
+
+    def coerce_args(self, st, f, args, argv, e):
+        """implicit conversions at a call: nil to the parameter type, values to interface parameters, variadic packing"""
+        ft = f.get('t')
+        if ft is None or self.tt.kind(ft) != 'func':
+            return argv
+        ptypes = self.tt[ft]['params']
+        variadic = self.tt[ft].get('variadic')
+        out = []
+        nfix = len(ptypes) - 1 if variadic else len(ptypes)
+        def conv(v, a, pt):
+            if isinstance(v, IfaceV) and self.tt.kind(pt) != 'iface' and (a.get('isNil') or a.get('Name') == 'nil'):
+                return self.lay.zero(pt)
+            if self.tt.kind(pt) == 'iface' and not isinstance(v, IfaceV):
+                return self.box(st, v, a.get('t'))
+            return v
+        for i in range(min(nfix, len(argv))):
+            out.append(conv(argv[i], args[i], ptypes[i]))
+        if variadic:
+            if e.get('Ellipsis'):
+                out.append(argv[nfix])
+            else:
+                etid = self.tt[ptypes[-1]]['e']
+                rest = [conv(v, a, etid) for v, a in zip(argv[nfix:], args[nfix:])]
+                es = self.lay.sorts(etid)
+                arrs = [fresh('va.arr', z3.ArraySort(I, s)) for s in es]
+                for i, v in enumerate(rest):
+                    for a, t in zip(arrs, self.lay.flatten(v, etid)):
+                        st.assume(z3.Select(a, i) == t)
+                out.append(SliceV(arrs, z3.IntVal(0), z3.IntVal(len(rest)), z3.IntVal(len(rest)), etid, z3.BoolVal(len(rest) == 0)))
+        return out
 
     def callee_key(self, st, f):
         if f['_'] == 'Ident':
@@ -354,7 +386,7 @@ class CallsMixin:
                 st.env[oid] = copyval(self.adjust_recv(st, recv, rcv[1])); st.names[rcv[0]] = oid
         variadic = False
         plist = (d['Type'].get('Params') or {}).get('List', []) or []
-        if plist and plist[-1]['Type']['_'] == 'Ellipsis' and not e.get('Ellipsis'):
+        if False:
             variadic = True
         if variadic:
             nfix = len(ps) - 1
@@ -491,8 +523,12 @@ class CallsMixin:
         raise Unsupported('conversion %s -> %s @%s' % (self.tt[from_tid]['s'] if from_tid is not None else '?', self.tt[to_tid]['s'], line))
 
     def box(self, st, v, tid):
+        if isinstance(v, PtrV):       # an interface holding a pointer is identified with the pointer (ghost state is keyed by it)
+            return IfaceV(v.ref, self.type_tag(tid) if tid is not None else z3.IntVal(-1), tid, concrete=v)
         ref = fresh('box'); st.assume(ref > 0)
-        r = IfaceV(ref, z3.IntVal(tid if tid is not None else -1), tid, concrete=v)
+        r = IfaceV(ref, self.type_tag(tid) if tid is not None else z3.IntVal(-1), tid, concrete=v)
+        if isinstance(v, z3.ExprRef) and v.sort() == I:
+            st.assume(unbox_int(ref) == v)
         return r
 
     # -- builtins ---------------------------------------------------------------------------------
